@@ -10,7 +10,6 @@ import (
 
 	"verif/gen"
 	"verif/hx"
-	"verif/ref"
 )
 
 type shiftCase struct {
@@ -23,16 +22,6 @@ func genShiftCase(t *rapid.T) shiftCase {
 	var c shiftCase
 	c.B = genBattle(t, 3, false)
 	m := c.B.Cfg.M
-	if m <= 24 && rapid.IntRange(0, 9).Draw(t, "oversize") == 0 {
-		// a warrior longer than the core: AddWarrior and SpawnWarrior accept it, and loading goes
-		// round the core once or twice, the later instructions replacing the earlier ones
-		n := m + rapid.IntRange(1, m+3).Draw(t, "over")
-		code := make([]ref.Instr, n)
-		for i := range code {
-			code[i] = gen.Instr(m).Draw(t, "ins")
-		}
-		c.B.Ws[0] = ref.Warrior{Code: code, Start: rapid.IntRange(0, n-1).Draw(t, "start")}
-	}
 	switch rapid.IntRange(0, 3).Draw(t, "kk") {
 	case 0:
 		// make the first warrior's code or entry wrap past M-1
@@ -167,8 +156,11 @@ func judgeShiftCase(c shiftCase, rec *hx.Rec) string {
 		if wrapped {
 			cl = append(cl, "placement_wraps")
 		}
-		if len(c.B.Ws[0].Code) > m {
-			cl = append(cl, "warrior_longer_than_core")
+		for _, w := range c.B.Ws {
+			if len(w.Code) >= m {
+				cl = append(cl, "warrior_fills_core_or_more")
+				break
+			}
 		}
 		if wrote {
 			cl = append(cl, "battle_wrote")
@@ -186,7 +178,7 @@ func judgeShiftCase(c shiftCase, rec *hx.Rec) string {
 	return ""
 }
 
-const c12Rule = "metamorphic: rapid draws a battle (1..3 warriors, any code, entry anywhere, core/limits/process/cycle limits; one case in ten with a small core has a first warrior longer than the core, which the simulator accepts), a shift k in [0,M) (25% chosen so that the first warrior's code wraps past M-1) and per-warrior extra multiples j*M; both placements are stepped side by side and after every cycle, and after Run() on fresh simulators, return values, cycle count, living count, alive flags must be equal, the core rotated by k and every queue entry shifted by k. Non-trivial: the shifted placement wraps a warrior's code or entry point past M-1 and the battle wrote at least one cell; distinct by case hash."
+const c12Rule = "metamorphic: rapid draws a battle (1..3 warriors, any code, entry anywhere, core/limits/process/cycle limits; one case in twelve with a small core has a warrior as long as the core or up to M+3 longer, which the simulator accepts), a shift k in [0,M) (25% chosen so that the first warrior's code wraps past M-1) and per-warrior extra multiples j*M; both placements are stepped side by side and after every cycle, and after Run() on fresh simulators, return values, cycle count, living count, alive flags must be equal, the core rotated by k and every queue entry shifted by k. Non-trivial: the shifted placement wraps a warrior's code or entry point past M-1 and the battle wrote at least one cell; distinct by case hash."
 
 func TestC12(t *testing.T) {
 	hx.Run(t, hx.Prop[shiftCase]{
